@@ -227,12 +227,13 @@ def r7(cx):
     send = cx.mir.one("varlink", "MethodCall::<MRequestParameters, MReply, MError>::send")
     cx.saw(send)
     du = DefUse(send); sl = Slice(send, du, extra_pass=("=branch", "=map_err"))
-    cr = [t for t in send.calls("=create") if "Request" in t.callee.path]
+    from .client_common import request_builders
+    cr = request_builders(send)
     why = []
-    if len(cr) != 1: why.append("%d Request::create calls" % len(cr))
+    if len(cr) != 1: why.append("%d places build the Request" % len(cr))
     else:
-        p = cr[0].args[1]
-        ds = du.defs.get(p.place.l, []) if p.place is not None else []
+        p = cr[0][2]
+        ds = du.value_defs(p.place.l) if p.place is not None else []
         some = [d for k, d in ds if k == "stmt" and d.rv == "agg" and isinstance(d.agg, dict) and d.agg.get("variant") == "Some"]
         if len(ds) != 1 or len(some) != 1: why.append("the parameters member is not unconditionally Some(..) (%d definitions): methods whose inputs are all optional would be called without `parameters` and rejected by the generated server" % len(ds))
         elif not any(k == "call" and o.callee.name == "to_value" for k, o in sl.origins(some[0].ops[0])): why.append("parameters are not serde_json::to_value(request)")
